@@ -140,3 +140,34 @@ def pattern_details(p):
 
 def lexlen_key(p):
     return (len(p), tuple(p))
+
+
+def contains_bt(t, p):
+    """containment by backtracking over positions (same answer as contains(); for texts too long for the subset census)"""
+    k, n = len(p), len(t)
+    if k == 0:
+        return True
+    if k > n:
+        return False
+    # for pattern position j: the earlier pattern positions holding the next smaller / next larger value
+    lower, upper = [], []
+    for j in range(k):
+        lo = [i for i in range(j) if p[i] < p[j]]
+        hi = [i for i in range(j) if p[i] > p[j]]
+        lower.append(max(lo, key=lambda i: p[i]) if lo else None)
+        upper.append(min(hi, key=lambda i: p[i]) if hi else None)
+    chosen = [0] * k
+
+    def rec(j, start):
+        if j == k:
+            return True
+        lo = t[chosen[lower[j]]] if lower[j] is not None else -1
+        hi = t[chosen[upper[j]]] if upper[j] is not None else n
+        for i in range(start, n - (k - j) + 1):
+            if lo < t[i] < hi:
+                chosen[j] = i
+                if rec(j + 1, i + 1):
+                    return True
+        return False
+
+    return rec(0, 0)
